@@ -10,6 +10,9 @@ checks = {
  "C07": ("exploration", "exhaustive enumeration of all ordered pairs of a boundary grid on the real interpreter against a math/big oracle",
          "every ordered pair of a boundary grid over int64/uint64/char/float64 (quick 169 values, thorough 1030: +-2^k, 2^k+-1, float neighbours, NaN, Inf, +-0, subnormals) under all 6 comparison operators, hash lookup and + - * / mod is evaluated on the real interpreter and compared with an exact oracle",
          "trusts the math/big / Go fixed-width oracle; values outside the structured grid are not explored; pairs the property leaves unspecified are only checked for no-panic", "§3 C07"),
+ "C08": ("exploration", "small-scope exhaustive enumeration of every bound name and special form x canary argument vectors x call routes on real sandboxed interpreters and on cmd/zygo -sandbox; oracle = canary files, canary environment variable and secrets unchanged/unseen",
+         "configurations {NewZlispSandbox(), sandbox + StandardSetup(), zygo -sandbox -c} x every name the interpreter itself reports as bound (so an added primitive is seen) + the compiler's special forms + setup macros x all argument vectors of length 0..2 (thorough 3) over a 9-item canary menu x 5 (bare) / 9 (standard) call routes incl. alias, apply, eval, macros, eval at expansion time in a duplicated interpreter; every outside-world primitive of the full interpreter is also reached for through names computed at run time; after every call the canary directory must be byte-identical, the canary variable unchanged, no secret in value or stdout",
+         "effects without a canary (network, clocks) are not judged; calls that block >4 s are counted, not judged; bounded argument vectors", "§3 C08"),
  "C02": ("exploration", "small-scope exhaustive enumeration of core-language programs, differential against a reference evaluator written in Go",
          "all depth-1 programs in 6 layout styles and all context chains of length 2 (thorough: 3, plus full depth-2 trees) over 59 contexts and 10 leaves are run on a fresh real interpreter and on the reference evaluator R1; value, error and the order of traced host calls must agree",
          "trusts R1 as the specification of the core language; programs R1 declines are skipped and counted; bounded size", "§3 C02"),
